@@ -6,6 +6,7 @@ mod pool;
 mod member;
 mod iceberg;
 mod http;
+mod planinfo;
 mod sqlrun;
 mod splits;
 mod dist_fault;
@@ -14,6 +15,13 @@ mod prune;
 mod compiled;
 mod pqstats;
 mod node;
+mod output;
+mod tpch;
+mod ffi;
+mod vecdist;
+mod vecsearch;
+mod funcs;
+mod fuzz;
 
 fn main() {
     let args: Vec<String> = std::env::args().collect();
@@ -44,11 +52,23 @@ fn main() {
         "cache-replay" => cache::replay(rest),
         "cache-build" => cache::build(rest),
         "cache-query" => cache::query(rest),
+        "cache-helper" => cache::helper(rest),
         "dist-topo" => dist_fault::topo(rest),
         "dist-replay" => dist_fault::replay(rest),
         "dist-http" => dist_fault::http(rest),
         "node-replay" => node::replay(rest),
         "node-classify" => node::classify(rest),
+        "funcs-run" => funcs::funcs_run(rest),
+        "fuzz-worker" => fuzz::worker(rest),
+        "fuzz-one" => fuzz::one(rest),
+        "ffi-replay" => ffi::replay(rest),
+        "vecdist-replay" => vecdist::replay(rest),
+        "vecdist-record" => vecdist::record(rest),
+        "vecsearch-run" => vecsearch::run(rest),
+        "output-replay" => output::replay(rest),
+        "output-parse" => output::parse(rest),
+        "output-parquet" => output::to_parquet(rest),
+        "tpch-record" => tpch::record(rest),
         other => {
             eprintln!("unknown subcommand {other}");
             2
